@@ -30,7 +30,7 @@ def build(spec):
 def main(tier, seed):
     t0 = time.time()
     specs = enumerate_specs(tier)
-    results = runner.run_pool(__name__, specs, tier, seed)
+    results = runner.run_pool(__name__, specs, tier, seed, chain=4)
     # E3: the output-size arithmetic shared by every window-based op, for symbolic sizes up to 10^6
     from .. import lemmas
     extra_lines, extra_viol = [], 0
